@@ -57,6 +57,12 @@ type c15LRow struct {
 	OffPath    int      `json:"offPath"` // known-CID datagrams from a socket other than the owner's that reached the owner
 }
 
+// c15Sock keeps the client's socket usable by the harness after the client Conn closed itself
+// (a server-side Close sends close_notify, the client answers by closing): Close only unblocks readers.
+type c15Sock struct{ *net.UDPConn }
+
+func (s c15Sock) Close() error { return s.UDPConn.SetReadDeadline(time.Unix(1, 0)) }
+
 type c15LGot struct {
 	conn int
 	tag  string
@@ -108,7 +114,7 @@ func runC15Listen(idx int, cc *c15LCase) (row c15LRow) { //nolint:cyclop,gocogni
 	ctx, cancel := context.WithTimeout(context.Background(), 20*time.Second)
 	defer cancel()
 	for k := 1; k <= 2; k++ {
-		cl, err := ClientWithOptions(socks[fmt.Sprintf("a%d", k)], ln.Addr(), WithInsecureSkipVerify(true),
+		cl, err := ClientWithOptions(c15Sock{socks[fmt.Sprintf("a%d", k)]}, ln.Addr(), WithInsecureSkipVerify(true),
 			WithMinVersion(vmin), WithMaxVersion(vmax), WithConnectionIDGenerator(cidGen(cc.CidC)),
 			WithFlightInterval(300*time.Millisecond))
 		if err != nil {
